@@ -6,11 +6,11 @@ import world as wd
 from world import IkeSa
 
 INV_ALWAYS = ('Budget', 'Deleted')
-PROPS = ('NoRetxAfterAnswer', 'TimersFire')
+PROPS = ('NoRetxAfterAnswer', 'TimersFire', 'HardLimitFixed')
 
 
 def timer_models(v, tier):
-    base = dict(Dpd=3, Life=8, MaxLoss=1 if tier == 'quick' else 2, StartKinds=T.ALL_KINDS, Horizon=45, **T.code_constants())
+    base = dict(Dpd=3, Life=8, MaxLoss=1 if tier == 'quick' else 2, StartKinds=T.ALL_KINDS, Horizon=45, MaxBusy=2, **T.code_constants())
     quick_kinds = ('idle', 'newchild', 'delchild', 'newchild_ke', 'rekeyike_ke', 'init_cookie', 'auth')
     configs = [
         # schedule class (i): the loop sweeps at least once per second -> two-sided spacing, crash bound
